@@ -550,9 +550,9 @@ func (db *DB) loadIndexFromDataFiles(fileIds []uint32, nonMergeFileId uint32) er
 					break
 				}
 				// 进程崩溃或断电可能导致最新文件的尾部记录只写入了一部分 (其余文件在切换时已持久化).
-				// 残缺的尾部记录从未被确认, 将其截断后视为文件结束, 否则数据库无法再次打开
-				if fileId == fileIds[len(fileIds)-1] &&
-					(errors.Is(err, datafile.ErrInvalidCRC) || errors.Is(err, io.ErrUnexpectedEOF)) {
+				// 残缺的尾部记录从未被确认, 将其截断后视为文件结束, 否则数据库无法再次打开.
+				// 完整写入但校验和不匹配的记录属于数据损坏, 仍然返回错误, 避免静默丢弃其后的已确认数据
+				if fileId == fileIds[len(fileIds)-1] && errors.Is(err, io.ErrUnexpectedEOF) {
 					if err = dataFile.Truncate(reader.Offset()); err != nil {
 						return err
 					}
